@@ -43,6 +43,45 @@ type errSource struct {
 
 // errSources lists the error-like results of calls in fn; unusedCalls are calls with an
 // error-like result that is never extracted/used.
+// lastEffect: the call is an ordinary call (not go/defer) in a function without results, and
+// nothing follows it on any path but the return.
+func lastEffect(fn *ssa.Function, ci ssa.CallInstruction) bool {
+	call, ok := ci.(*ssa.Call)
+	if !ok || fn.Signature.Results().Len() != 0 {
+		return false
+	}
+	seen := map[*ssa.BasicBlock]bool{}
+	var rest func(b *ssa.BasicBlock, from int) bool
+	rest = func(b *ssa.BasicBlock, from int) bool {
+		if from == 0 {
+			if seen[b] {
+				return false // a loop: the call can run again
+			}
+			seen[b] = true
+		}
+		for _, ins := range b.Instrs[from:] {
+			switch ins.(type) {
+			case *ssa.Return, *ssa.RunDefers, *ssa.Jump, *ssa.DebugRef:
+			default:
+				return false
+			}
+		}
+		for _, s := range b.Succs {
+			if !rest(s, 0) {
+				return false
+			}
+		}
+		return true
+	}
+	b := call.Block()
+	for i, ins := range b.Instrs {
+		if ins == ssa.Instruction(call) {
+			return rest(b, i+1)
+		}
+	}
+	return false
+}
+
 func errSources(fn *ssa.Function) (srcs []errSource, dropped []errSource) {
 	for _, ins := range allInstrs(fn) {
 		ci, ok := ins.(ssa.CallInstruction)
@@ -1220,6 +1259,8 @@ func ruleErr(sc errScope) ruleFn {
 					r.OK("R6.drop", name, construct, site, "callee provably never fails: every return of its error result is nil")
 				} else if reason, ok := useTable(r, errTable, name+"/"+construct); ok {
 					r.Tabled("R6.drop", name, construct, site, "err", reason)
+				} else if lastEffect(fn, d.call) {
+					r.OK("R6.drop", name, construct, site, "the call is the last thing the function does and the function has no result to report a failure with: leaving is all that `if err != nil { return }` would do")
 				} else {
 					r.Bad("R6.drop", name, construct, site, "the error result of "+d.desc+" is discarded: a failure there goes unnoticed")
 				}
